@@ -478,7 +478,8 @@ def TextRoundTrips (g : Genesis) : Bool :=
 
 /-- the wall-clock fields are those of a real `time.Time`: month 1..12, day 1..31, hour < 24,
 minute < 60, second < 60 (Go has no leap second), nanosecond < 10⁹.  `GoTime` is a record of free
-numbers; every value Go can hold satisfies this.  It is exactly what `TextRoundTrips` needs
+numbers; every value Go can hold satisfies this (`GoTime.ofUnix` does, for every instant and zone:
+`Proofs/C18Civil.lean`, `Spec.C18.ofUnix_wallClockOK`).  It is exactly what `TextRoundTrips` needs
 (`Proofs/C18Text.lean`: `textRoundTrips_of_wallClock`, `textRoundTrips_iff_wallClock`). -/
 def WallClockOK (t : GoTime) : Bool :=
   decide (1 ≤ t.month) && decide (t.month ≤ 12) && decide (1 ≤ t.day) && decide (t.day ≤ 31) &&
